@@ -379,6 +379,10 @@ func (p *Properties) Decode(pkt byte, b *bytes.Buffer) (n int, err error) {
 	}
 
 	bt := b.Bytes()
+	if n > len(bt) {
+		return n + bu, ErrMalformedOffsetByteOutOfRange // the declared property length exceeds the available bytes
+	}
+	bt = bt[:n] // property values must lie inside the declared property length
 	var k byte
 	for offset := 0; offset < n; {
 		k, offset, err = decodeByte(bt, offset)
